@@ -206,6 +206,54 @@ def directives(pi: int, hi: int, ver_minor: int, explicit: bool) -> str:
     return 'ok'
 
 
+DOC_TAGS = [None, {'!e!': 't:a/'}]
+NODE_TAGS = [None, 't:a/foo', 't:a/', T, T + 'str', '!', '!local']
+
+
+def _root(kind, tag):
+    impl = tag is None
+    if kind == 0:
+        return [ScalarEvent(None, tag, (impl, False), 'abc')]
+    if kind == 1:
+        return [ScalarEvent(None, tag, (False, impl), 'abc', style='"')]
+    if kind == 2:
+        return [ScalarEvent(None, tag, (False, impl), 'abc\n\n', style='|')]      # keep chomping: open ended
+    if kind == 3:
+        return [SequenceStartEvent(None, tag, impl, flow_style=False), ScalarEvent(None, None, (True, False), 'a'), SequenceEndEvent()]
+    if kind == 4:
+        return [MappingStartEvent(None, tag, impl, flow_style=True), ScalarEvent(None, None, (True, False), 'k'),
+                ScalarEvent(None, None, (True, False), 'v'), MappingEndEvent()]
+    return [ScalarEvent(None, tag, (impl, False), '')]
+
+
+def multidoc(n: int, r0: int, r1: int, r2: int, v0: bool, v1: bool, v2: bool, t0: int, t1: int, t2: int, e0: bool, e1: bool, e2: bool,
+             g0: int, g1: int, g2: int, s0: bool, s1: bool, s2: bool) -> str:
+    """streams of n documents: what one document leaves open (an open-ended scalar, no explicit
+    end) against what the next one starts with (%YAML, %TAG, explicit start, a tagged root)"""
+    R, V, TG, E, G, S = [r0, r1, r2], [v0, v1, v2], [t0, t1, t2], [e0, e1, e2], [g0, g1, g2], [s0, s1, s2]
+    events = [StreamStartEvent()]
+    for i in range(3):
+        if i < n:
+            events.append(DocumentStartEvent(explicit=S[i], version=(1, 1) if V[i] else None, tags=pick(TG[i], DOC_TAGS)))
+            events += _root(R[i], pick(G[i], NODE_TAGS))
+            events.append(DocumentEndEvent(explicit=E[i]))
+    events.append(StreamEndEvent())
+    try:
+        text, got = emit_parse(events, {})
+    except EmitterError:
+        return fail(P, 'EMITTER-ERROR on a well-formed stream', n=n)
+    except yaml.YAMLError as e:
+        return fail(P, 'REPARSE the emitted text is rejected (%s)' % type(e).__name__, n=n)
+    except Exception as e:
+        not_a_finding(e)
+        return fail(P, exc_sig(e), n=n)
+    reach()
+    r = same_events(events, got)
+    if r:
+        return fail(P, r, n=n)
+    return 'ok'
+
+
 KINDS = ['StreamStart', 'StreamEnd', 'DocumentStart', 'DocumentEnd', 'Scalar', 'Alias', 'SequenceStart', 'SequenceEnd', 'MappingStart', 'MappingEnd']
 
 
@@ -377,6 +425,17 @@ def jobs(tier):
                           budget=250 if q else 900,
                           bounds='%s holding one character, every Unicode scalar value in U+%04X..U+%04X: prepare + scan + parse round trip' % (
                               'tag' if w == 0 else '%TAG prefix', lo, hi - 1)))
+    NG = len(NODE_TAGS)
+    for r in range(6):
+        # quick: first document free, second document {plain scalar, sequence} root with every directive / tag combination
+        js.append(Job('multidoc/first-root=%d' % r, multidoc,
+                      [lambda n, r0, r1, r2, v0, v1, v2, t0, t1, t2, e0, e1, e2, g0, g1, g2, s0, s1, s2, _r=r:
+                       r0 == _r and 0 <= t0 <= 1 and 0 <= t1 <= 1 and 0 <= g1 < NG and
+                       ((n == 2 and g0 == 0 and not s0 and (r1 == 0 or r1 == 3) and r2 == 0 and not v2 and t2 == 0 and not e2 and g2 == 0 and not s2 and not s1) if q else
+                        (2 <= n <= 3 and 0 <= g0 < NG and 0 <= r1 <= 5 and (r2 == 0 or r2 == 3) and 0 <= t2 <= 1 and 0 <= g2 <= 2))],
+                      budget=200 if q else 1500, exhaust=q,
+                      bounds='streams of 2 documents (3 in the thorough tier): first root kind %d of 6 (plain / double-quoted / literal-keep scalar, block sequence, flow mapping, empty scalar) x %%YAML x %%TAG x explicit end; '
+                             'second document: %%YAML x %%TAG x explicit end x root tag in 7 kinds (none, handle+suffix, exactly a %%TAG prefix, exactly the !! prefix, !!str, !, !local)' % r))
     js.append(Job('directives', directives, [lambda pi, hi, ver_minor, explicit: 0 <= pi < len(PREFIX_CHARS) and 0 <= hi < len(HANDLE_CHARS) and 0 <= ver_minor <= 2],
                   budget=200 if q else 600, bounds='%%TAG !<h>! t:<p> over %d prefix and %d handle class representatives x %%YAML 1.0-1.2 x explicit' % (len(PREFIX_CHARS), len(HANDLE_CHARS))))
     IN = 4 if q else 5
